@@ -1143,10 +1143,11 @@ struct Explorer {
       set<string> seen;
       set<int> stmts;
       for (auto& t : op.tool_args) CleanReach(*v, before, t, &seen, &stmts);
-      for (int si : stmts) OwnedFiles(v->stmts[si], before, &scope);
+      // "never ... without -g, a generator output": in every mode (the alphabet passes -g only to the plain form)
+      for (int si : stmts) if (!v->stmts[si].generator) OwnedFiles(v->stmts[si], before, &scope);
     } else if (op.tool_kind == "clean-rules") {
       for (auto& s : v->stmts)
-        if (find(op.tool_args.begin(), op.tool_args.end(), s.rule) != op.tool_args.end()) OwnedFiles(s, before, &scope);
+        if (!s.generator && find(op.tool_args.begin(), op.tool_args.end(), s.rule) != op.tool_args.end()) OwnedFiles(s, before, &scope);
     } else if (op.tool_kind == "cleandead") {
       lp::BuildLogModel bl;
       if (auto* f = before.Get(kLog)) bl = lp::ParseBuildLog(f->data);
@@ -1190,6 +1191,18 @@ struct Explorer {
       x.facts.set("path", p);
       x.facts.set("tool", op.tool_kind);
       x.facts.set("phony_name", is_phony);
+      {
+        // a file of a generator statement, deleted by the target / rule form (where ninja accepts but ignores -g)
+        bool gen_file = false;
+        for (auto& gs : v->stmts) {
+          if (!gs.generator) continue;
+          set<string> own;
+          OwnedFiles(gs, before, &own);
+          if (own.count(p)) gen_file = true;
+        }
+        x.facts.set("generator_output_deleted_by_the_target_or_rule_form",
+                    gen_file && (op.tool_kind == "clean-targets" || op.tool_kind == "clean-rules"));
+      }
       bool only_validation = false, any_ref = false;
       for (auto& s : v->stmts) {
         for (auto* l : {&s.ex, &s.im, &s.oo}) for (auto& q : *l) if (q == p) any_ref = true;
@@ -1229,6 +1242,14 @@ struct Explorer {
           Violation x; x.prop = "C18"; x.clause = "dry-run-listing";
           x.detail = "dry-run clean lists a different set than the files in scope";
           x.facts.set("tool", op.tool_kind);
+          {
+            bool only_gen = op.tool_kind == "clean-targets" || op.tool_kind == "clean-rules";
+            set<string> genfiles;
+            for (auto& gs : v->stmts) if (gs.generator) OwnedFiles(gs, before, &genfiles);
+            for (auto& q : listed) if (!expected.count(q) && !genfiles.count(q)) only_gen = false;
+            for (auto& q : expected) if (!listed.count(q)) only_gen = false;
+            x.facts.set("generator_output_deleted_by_the_target_or_rule_form", only_gen);
+          }
           bool only_depfile_named = true;
           for (auto& q : listed) if (!expected.count(q) && !DepfileNamed(*v, before, q)) only_depfile_named = false;
           for (auto& q : expected) if (!listed.count(q)) only_depfile_named = false;
